@@ -212,8 +212,9 @@ class DIMSEMessage(object):
 
     def set_length(self):
         """Sets DIMSE message length attribute in command dataset"""
+        # Command Group Length counts every element of the group except itself (PS3.7 E.1)
         it = (len(dsutils.encode_element(v, True, True))
-              for v in list(self.command_set.values())[1:])
+              for v in self.command_set.values() if v.tag != (0x0000, 0x0000))
         self.command_set[(0x0000, 0x0000)].value = sum(it)
 
     def __repr__(self):
